@@ -700,3 +700,121 @@ mut("c18-same-stream-discards", "C18", ST,
     """        if stream.is_some() {
             if matches!(self.state, State::Stream) {""",
     "R18.2", "re-selecting the current stream drops buffered data")
+
+# ---- C05 -------------------------------------------------------------------------------------------------
+mut("c05-handover-raw-start", "C05", ST,
+    """        Ok(request::Parser::from_parser(self.config, self.buffer, self.free_start, self.output))""",
+    """        Ok(request::Parser::from_parser(self.config, self.buffer, self.raw_start, self.output))""",
+    "R5.3/into_request_parser", "look-ahead bytes dropped at the hand-over")
+mut("c05-read-free-start-before-discard", "C05", ST,
+    """        self.discard_stream();
+        Ok(request::Parser::from_parser(self.config, self.buffer, self.free_start, self.output))""",
+    """        let len = self.free_start;
+        self.discard_stream();
+        Ok(request::Parser::from_parser(self.config, self.buffer, len, self.output))""",
+    "R5.3/into_request_parser", "stale length: consumed bytes replayed")
+mut("c05-drop-boundary-guard", "C05", ST,
+    """    pub fn into_input(mut self) -> Result<Vec<u8>, Error> {
+        if !self.is_record_boundary() {
+            return Err(Error::Interrupted);
+        }""",
+    """    pub fn into_input(mut self) -> Result<Vec<u8>, Error> {""",
+    "R5.3/into_input", "conversion in the middle of a record")
+mut("c05-truncate-whole-buffer", "C05", RQ,
+    """        let mut input = Vec::from(self.input);
+        input.truncate(self.input_len);
+        Ok((request, input))""",
+    """        let mut input = Vec::from(self.input);
+        input.truncate(input.capacity());
+        Ok((request, input))""",
+    "R5.1/into_request", "leftover includes stale buffer contents")
+mut("c05-move-input-wrong-source", "C05", RQ,
+    """            self.input.copy_within(used_len..self.input_len, 0);""",
+    """            self.input.copy_within(rem_len..self.input_len, 0);""",
+    "R5.4/move_input", "wrong tail kept")
+mut("c05-benign-local-free-start", "C05", ST,
+    """        self.discard_stream();
+        Ok(request::Parser::from_parser(self.config, self.buffer, self.free_start, self.output))""",
+    """        self.discard_stream();
+        let len = self.free_start;
+        Ok(request::Parser::from_parser(self.config, self.buffer, len, self.output))""",
+    None, "free_start bound to a local after the compaction")
+
+# ---- C06 -------------------------------------------------------------------------------------------------
+mut("c06-allocate-configured-size", "C06", RQ,
+    """        let buffer_size = config.aligned_bufsize();
+        let buffer = vec![0; buffer_size].into_boxed_slice();
+        Self::from_parser(config, buffer, 0, Vec::with_capacity(256))""",
+    """        let buffer_size = config.buffer_size;
+        let buffer = vec![0; buffer_size].into_boxed_slice();
+        Self::from_parser(config, buffer, 0, Vec::with_capacity(256))""",
+    "R6.1", "buffer below the 24-byte minimum possible")
+mut("c06-stuck-one-early", "C06", RQ,
+    """        if !done && self.input_len == self.input.len() {""",
+    """        if !done && self.input_len + 1 >= self.input.len() {""",
+    "R6.2/parse/stuck-detection", "StuckOnInput although one byte of room is left")
+mut("c06-stuck-not-reported", "C06", RQ,
+    """        if !done && self.input_len == self.input.len() {
+            self.state = State::Fatal(Error::StuckOnInput);
+            done = true;
+        }""",
+    """        if !done && self.input_len == self.input.len() {
+            tracing::warn!("input buffer is full");
+        }""",
+    "R6.2/parse/stuck-detection", "caller waits forever on an empty input buffer")
+mut("c06-align-down", "C06", LIB,
+    """            Some(r) => r & !7,""",
+    """            Some(r) => (r - 7) & !7,""",
+    "R6.3/aligned_bufsize", "effective buffer smaller than configured")
+
+# ---- C03 -------------------------------------------------------------------------------------------------
+mut("c03-fatal-falls-through", "C03", RQ,
+    """                Done(_) | Fatal(_) => return (data, self),""",
+    """                Done(_) => return (data, self),
+                Fatal(_) => HeaderState.drive(data, out),""",
+    "R3.1/state-drive/final-sticky", "a fatal error is forgotten by the next call")
+mut("c03-clear-after-drive", "C03", RQ,
+    """        self.input_len += new_input;
+        self.output.clear();
+""",
+    """        self.input_len += new_input;
+""",
+    "R3.2/parse/clear-then-drive", "replies of the previous call are emitted again",
+    extra=[("""        let rem_len = rem.len();
+        self.move_input(rem_len);
+""", """        let rem_len = rem.len();
+        self.move_input(rem_len);
+        if rem_len == 0 && self.input_len == 0 && new_input == 0 {
+            self.output.clear();
+        }
+""")])
+mut("c03-panic-default-header", "C03", RQ,
+    """            &mut self.state, || State::Fatal(Error::Paniced),""",
+    """            &mut self.state, || State::Header(HeaderState),""",
+    "R3.3/parse/panic-fallback", "parser silently restarts after a panic")
+mut("c03-stream-version-error-consumes", "C03", ST,
+    """            Err(fcgi::Error::UnknownVersion(v)) => return Err(Error::UnknownVersion(v)),""",
+    """            Err(fcgi::Error::UnknownVersion(v)) => {
+                self.raw_start = past_head;
+                return Err(Error::UnknownVersion(v));
+            },""",
+    "R3.4/stream/unknown-version", "the fatal error is reported once, later calls parse garbage")
+mut("c03-params-unknown-version-skips", "C03", RQ,
+    """            Err(fcgi::Error::UnknownVersion(v)) => fatal!($inp, Error::UnknownVersion(v)),""",
+    """            Err(fcgi::Error::UnknownVersion(v)) => {
+                ::tracing::warn!(version = v, "unknown version");
+                let skip = $s.into_skip(0, 0);
+                return Continue((&mut $inp[fcgi::RecordHeader::LEN..], skip));
+            },""",
+    "R3.5/", "records of unknown version are skipped as if 8 bytes long")
+mut("c03-stream-parse-early-out", "C03", ST,
+    """        assert!(new_input <= self.buffer.len() - self.free_start);
+        self.free_start += new_input;
+""",
+    """        assert!(new_input <= self.buffer.len() - self.free_start);
+        self.free_start += new_input;
+        if new_input == 0 && dest.is_none() {
+            return Ok(Status { stream: 0, output: 0, stream_end: self.stream.is_none() });
+        }
+""",
+    "R3.8/stream-parse/always-processes", "buffered records stay unparsed")
